@@ -143,6 +143,9 @@ pub const ODD_FENS: &[&str] = &[
     "r3k2r/8/8/8/8/8/8/R3K2R w KQkq e6 0 1",
     "r3k2r/8/8/8/8/8/8/R3K2R b KQkq a3 0 1",
     "4k3/8/8/8/8/8/8/4K3 w KQkq - 0 1",
+    // more pseudo-legal moves than any legal position has (221 and 224), still within the 256-entry move buffer
+    "R6R/3Q4/1Q4Q1/4Q3/2Q4Q/Q4Q2/3Q4/kBNN1KB1 w - - 0 1",
+    "R4Q1R/3Q4/1Q4Q1/4Q3/2Q4Q/Q4Q2/pp1Q4/kBNN1KB1 w - - 0 1",
 ];
 
 /// Groups of positions with the same placement that differ only in side to move, castling rights or
